@@ -278,6 +278,26 @@ claim('C18',
       'evaluation of the memory map, CFG dominance',
       'DESIGN.md section 4 C18, Appendix A.2')
 
+claim('C17',
+      'Decides each accessor for all argument values and all prior memory '
+      'contents by abstract interpretation over bit provenance and affine '
+      'indices: every region access is in bounds and inside its row under '
+      'the guards and documented ranges (interval analysis with constraints '
+      'on guarded affine forms), every setter changes only the addressed '
+      'bits (frame, by provenance), and getter and setter bit maps are '
+      'mutual inverses, including gff per-bit truth tables, sprite nibble '
+      'parity and the map/gfx shared rows.',
+      'Decided: in-bounds / no-row-wrap / callee-contract under clipping; '
+      'frame; inverse, per call. Not decided: sequences of calls against a '
+      'model (histories) -- each call is covered, the composition is not '
+      'mechanised; ragged rows and TRANSPARENT only as "skipped pixels store '
+      'nothing". Trusted: documented argument ranges (DOC_RANGES table in '
+      'the rule).',
+      'static analysis: abstract interpretation (KnownBits-style bit '
+      'provenance with truth-table cells, affine index forms, interval + '
+      'constraint domain, path splitting without solver)',
+      'DESIGN.md section 4 C17, Appendix A.2/A.3')
+
 
 def main():
     props = []
